@@ -646,6 +646,7 @@ def check_attr_table(prog, fv, r):
     # constant (`let size = match code { COMMUNITY => 4, .. }; if !len.is_multiple_of(size)` reads as is_multiple_of(len, 4))
     from ..paths import enumerate_paths, PathLimit
     table = {}
+    by_param = {}
     err_blocks = set()
     for b in sorted(fv.live):
         for s in fv.blocks[b]["s"]:
@@ -690,6 +691,28 @@ def check_attr_table(prog, fv, r):
             continue
         for c in codes:
             table.setdefault(c, set()).update(atoms)
+        # the same attribute decoded under a session parameter (AS_PATH with 2-octet or 4-octet AS numbers) has one arm per
+        # value of the parameter: each arm needs the checks
+        for br, labels in conds:
+            e_ = br.expr
+            while isinstance(e_, tuple) and e_ and e_[0] in ("un",) and e_[1] == "Not":
+                e_ = e_[2]
+            if isinstance(e_, tuple) and e_ and e_[0] == "var" and set(labels) <= {"true", "false"} and len(labels) == 1:
+                pl = [l for l, n in fv.local_name.items() if n == e_[1] and 1 <= l <= fv.f["argc"] and fv.f["locals"][l] == "bool"]
+                if pl:
+                    for c in codes:
+                        by_param.setdefault((c, e_[1]), {}).setdefault(next(iter(labels)), set()).update(atoms)
+    for (c, pname), sides in sorted(by_param.items()):
+        if not c.isdigit() or int(c) not in ATTR_RULES or len(sides) < 2:
+            continue
+        for rq in ATTR_RULES[int(c)]:
+            have = {side for side, at in sides.items() if any(re.search(rq, a) for a in at)}
+            if have and have != set(sides):
+                miss = sorted(set(sides) - have)
+                r.fail(fv.name, "attr-rule-one-arm:%s:%s:%s=%s" % (c, re.sub(r"[\\\\().*|:]+", "", rq)[:24], pname, "/".join(miss)),
+                       "Attribute::decode(code %s) makes the RFC check /%s/ only when %s is %s; with %s = %s the same attribute is accepted unchecked" % (c, rq, pname, "/".join(sorted(have)), pname, "/".join(miss)), fv.loc())
+            elif have:
+                r.ok("code %s: error on %s in both %s arms" % (c, rq, pname))
     for code, reqs in sorted(ATTR_RULES.items()):
         atoms = table.get(str(code), set())
         for rq in reqs:
